@@ -35,10 +35,29 @@ def _weight(label):
     return 1
 
 
+# statement-granularity pass: every statement of the request path (transaction id generation, registry, worker queue)
+# is a scheduling point: an id that is read and incremented without the lock is then visible
+LINE_ANCHORS = sched.LineAnchors([
+    ('provider/providerimpl.py', 'generate_transaction_id'),
+    ('provider/providerimpl.py', 'handle_operation_request'),
+    ('provider/sco.py', '*'),
+    ('provider/operations.py', '*'),
+    ('provider/porttypes/setserviceimpl.py', '*'),
+    ('provider/porttypes/porttypebase.py', '*'),
+    ('provider/porttypes/contextserviceimpl.py', '*'),
+])
+
+
+def _line_weight(label):
+    return 1 if label.startswith('line:') or 'transaction_id' in label else 99
+
+
 class Run:
-    def __init__(self, scenario, prefix):
+    def __init__(self, scenario, prefix, lines=False):
         self.scenario = scenario
         self.s = sched.Scheduler(prefix)
+        if lines:
+            self.s.line_anchors = LINE_ANCHORS
         world.install()
         w = world.World()
         world.ENV.sched = self.s
@@ -101,14 +120,18 @@ class Run:
 
 
 def _explore(acc, arg):
-    scenario, bound, cap = arg
-    name = ' || '.join(scenario)
+    scenario, bound, cap = arg[:3]
+    lines = len(arg) > 3
+    name = ' || '.join(scenario) + (' [statements]' if lines else '')
     outcomes = set()
     found = {}
+    _weight = _line_weight if lines else globals()['_weight']
 
     def one(prefix):
-        r = Run(scenario, prefix).go()
+        r = Run(scenario, prefix, lines).go()
         problems, ids = r.judge()
+        if lines:
+            acc.add('statement-points', r.s.line_points)
         return r.s.trace, (ids, problems, r.s.choices())
 
     def on_exec(prefix, trace, payload):
@@ -132,19 +155,20 @@ def _explore(acc, arg):
         acc.cap(f'concurrent-requests[{name}]', f'stopped after {n} schedules')
     for kind, (detail, choices, pre) in found.items():
         acc.violation(f'concurrent-requests/{kind}/{name}', {'scenario': name, 'detail': detail, 'schedule': choices, 'preemptions': pre},
-                      case={'kind': 'sched', 'scenario': list(scenario), 'schedule': choices})
+                      case={'kind': 'sched', 'scenario': list(scenario), 'schedule': choices, 'lines': lines})
 
 
 def run(ctx):
     bound = 2 if ctx.quick else 3
     jobs = [(s, bound, 1500 if ctx.quick else 30000) for s in SCENARIOS]
     jobs += [(s, 1 if ctx.quick else 2, 1500 if ctx.quick else 30000) for s in SCENARIOS_3]
+    jobs += [(s, 1 if ctx.quick else 2, 1500 if ctx.quick else 30000, 'lines') for s in (SCENARIOS[:2] if ctx.quick else SCENARIOS)]
     ctx.note('concurrent_request_scenarios', len(jobs))
     ctx.pmap(_explore, ctx.rotate(jobs), chunksize=1)
 
 
 def replay(ctx, case):
-    r = Run(tuple(case['scenario']), case['schedule']).go()
+    r = Run(tuple(case['scenario']), case['schedule'], bool(case.get('lines'))).go()
     problems, ids = r.judge()
     for kind, detail in problems:
         ctx.violation(f'concurrent-requests/{kind}', detail)
